@@ -12,6 +12,9 @@ class Ctx:
         self.script = list(script)
         self.conns = list(conns)
         self.events = []
+        self.device = None      # optional callable(apdu) -> script entry (on-the-fly simulator)
+        self.recorded = []      # entries actually served (the script handed to the model)
+        self.conns_used = []
 
 
 CTX = Ctx()
@@ -42,9 +45,13 @@ class SimDongle:
     def exchange(self, apdu, timeout=20000):
         ctx = self.ctx
         ctx.events.append("A" + bytes(apdu).hex())
-        if not ctx.script:
+        if ctx.device is not None:
+            e = ctx.device(bytes(apdu))
+        elif not ctx.script:
             raise RuntimeError("simulated device script exhausted")
-        e = ctx.script.pop(0)
+        else:
+            e = ctx.script.pop(0)
+        ctx.recorded.append(e)
         k = e[0]
         if k == "d":
             return bytearray(e[1])
@@ -69,6 +76,7 @@ class SimDongle:
 def _get_dongle(debug=False):
     ctx = CTX
     ok = ctx.conns.pop(0) if ctx.conns else True
+    ctx.conns_used.append(ok)
     ctx.events.append("C1" if ok else "C0")
     if not ok:
         raise CommException("No dongle found")
@@ -78,7 +86,16 @@ def _get_dongle(debug=False):
 class _Hid:
     @staticmethod
     def hidapi_exit():
+        pass
+
+
+def _wrap_disconnect(cls):
+    orig = cls.__dict__["disconnect"]
+
+    def disconnect(self):
         CTX.events.append("D")
+        return orig(self)
+    cls.disconnect = disconnect
 
 
 class _Time:
@@ -96,25 +113,39 @@ def install():
     if _installed:
         return
     import ledger.hsm2dongle as h
+    import ledger.hsm2dongle_tcp as ht
     import ledger.protocol as p
     h.getDongle = _get_dongle
+    ht.getDongle = lambda host, port, debug=False: _get_dongle(debug)
     h.hid = _Hid
     p.time = _Time
+    _wrap_disconnect(h.HSM2Dongle)
+    _wrap_disconnect(ht.HSM2DongleTCP)
     _installed = True
 
 
-def reset(script=(), conns=()):
+def reset(script=(), conns=(), device=None):
     global CTX
     CTX.script = list(script)
     CTX.conns = list(conns)
+    CTX.conns_used = []
     CTX.events = []
+    CTX.device = device
+    CTX.recorded = []
     return CTX
 
 
-def connected_dongle(cls=None):
+def connected_dongle(platform="ledger"):
     """an HSM2Dongle that is already connected to the simulated device (no event emitted)"""
     install()
-    from ledger.hsm2dongle import HSM2Dongle
-    d = (cls or HSM2Dongle)(False)
+    if platform == "sgx":
+        from sgx.hsm2dongle import HSM2DongleSGX
+        d = HSM2DongleSGX("sim", 0, False)
+    elif platform == "tcp":
+        from ledger.hsm2dongle_tcp import HSM2DongleTCP
+        d = HSM2DongleTCP("sim", 0, False)
+    else:
+        from ledger.hsm2dongle import HSM2Dongle
+        d = HSM2Dongle(False)
     d.dongle = SimDongle(CTX)
     return d
